@@ -45,6 +45,16 @@ type stream struct {
 
 type Tape struct {
 	st [nStreams]stream
+	// Override, when set, replaces the generated fault plan (fault-position sweep).
+	Override *FaultOverride
+}
+
+// FaultOverride: fail exactly the N-th invocation of registration Reg.
+type FaultOverride struct {
+	Kind      int `json:"kind"`
+	Reg       int `json:"reg"`
+	N         int `json:"n"`
+	PanicKind int `json:"panic_kind"`
 }
 
 const tapeCap = 1 << 16
